@@ -155,3 +155,58 @@ func VerifC26_receive() {
 	}
 	verifAssert(errB == ErrClosing, "Receive returns ErrClosing on Close (second subscription)")
 }
+
+// VerifC26_backpressure: a consumer that lags until its 16-slot buffer is full (the reader is
+// parked publishing to it) and whose context then ends: Receive still returns the context
+// error and the connection keeps serving regular commands.
+func VerifC26_backpressure() {
+	conn := newVerifConn()
+	srv := newVerifServer(conn)
+	p := verifNewPipe(conn, false)
+	burst := verifParam("burst", 18)
+	verifGo("server", func() {
+		verifDaemon()
+		for {
+			argv, ok := srv.next()
+			if !ok {
+				return
+			}
+			switch argv[0] {
+			case "SUBSCRIBE":
+				srv.send(verifPush("subscribe", argv[1], ":1"))
+				for i := 0; i < burst; i++ {
+					srv.send(verifPush("message", "a", "m"+strconv.Itoa(i)))
+				}
+			case "PING":
+				srv.send("+PONG\r\n")
+			case "ID":
+				srv.send(":" + argv[1] + "\r\n")
+			}
+		}
+	})
+	ctx, cancel := context.WithCancel(context.Background())
+	gate := make(chan struct{})
+	var got []string
+	var err error
+	done := false
+	verifGo("receiver", func() {
+		err = p.Receive(ctx, verifSubCmd("a"), func(m PubSubMessage) {
+			<-gate // a slow consumer: blocks inside its callback
+			got = append(got, m.Message)
+		})
+		done = true
+	})
+	verifSettle() // the burst has been read as far as the full buffer allows: the reader is parked
+	cancel()
+	close(gate)
+	verifJoin() // a receiver that never returns ends the path as HANG
+	verifAssert(done && err == context.Canceled, "Receive returns the context error even when its buffer was full")
+	for i := range got {
+		verifAssert(got[i] == "m"+strconv.Itoa(i), "what was delivered is in server order")
+	}
+	r := p.Do(context.Background(), verifIDCmd(5))
+	n, e := r.AsInt64()
+	verifAssert(e == nil && n == 5, "the connection keeps serving regular commands after a lagging subscription ended")
+	p.Close()
+	verifReach("backpressure")
+}
